@@ -107,25 +107,31 @@ def patch_rules(facts, rep, rule="C01-PATCH"):
     rep.check(good, rule, "finish_file:patch-then-return-to-end", where(ff, ff.span),
               "update_local_file_header(..)? then seek(Start(file_end)) with file_end the position taken before the patch",
               "after back-patching the header the sink is not repositioned to the recorded end of the entry data")
-    # the back-patch is conditional on nothing but "not raw" and "there is an entry"
-    if ups:
-        extra = []
-        for x in dominating_facts(ff, ex, ups[0][0]):
-            if x[0] == "truth" and x[1][0] == "field" and x[1][2] in ("writing_raw", "writing_to_extra_field"):
+    # every successful close of a non-raw current entry runs the back-patch (path enumeration)
+    from engine.paths import paths as _paths, decided as _decided, called as _called, outcome as _outcome, PathExplosion
+    try:
+        pss = _paths(ff, max_paths=20000)
+    except PathExplosion:
+        pss = None
+    if pss is None:
+        rep.note("finish_file: path enumeration exceeded its cap; patch-unconditional evaluated by dominance only")
+        good = bool(ups)
+    else:
+        offenders = []
+        for p_ in pss:
+            if _outcome(p_)[0] != "Ok":
                 continue
-            if x[0] in ("Eq", "Ne") and x[1][0] == "discr":
-                inner = x[1][1]
-                if inner[0] == "call" and re.search(r"Try::branch$|last_mut$|mem::replace$", inner[1]):
-                    continue
-                if inner[0] in ("variant", "field", "ok") and any(y[0] == "call" and re.search(r"mem::replace$", y[1]) for y in walk(inner)):
-                    continue
-            extra.append(x)
-        good = not extra
-        ok &= good
-        rep.check(good, rule, "finish_file:patch-unconditional", where(ff, ups[0][1]["span"]),
-                  "the header back-patch runs for every non-raw entry",
-                  "the header back-patch is skipped under an extra condition: %s -- entries for which it holds keep the placeholder "
-                  "CRC/sizes in their local header" % [(x[0], show(x[1])[:60], show(x[2])[:20] if isinstance(x[2], tuple) else x[2]) for x in extra])
+            raw_ = _decided(p_, r"writing_raw$")
+            last_ = [v for a_, v in p_["decisions"] if re.search(r"^discr\(.*last_mut\(", a_)]
+            if raw_ == 0 and (not last_ or last_[-1] == 1) and not _called(p_, r"^write::update_local_file_header$"):
+                offenders.append([(a_[:50], v) for a_, v in p_["decisions"] if not a_.startswith("discr(Try::branch")][-4:])
+        good = not offenders
+        rep.count("finish_file_paths", len(pss))
+    ok &= good
+    rep.check(good, rule, "finish_file:patch-unconditional", where(ff, ups[0][1]["span"]) if ups else where(ff, ff.span),
+              "every successful close of a non-raw entry back-patches its local header",
+              "a successful close of a non-raw entry can skip the header back-patch (decisions: %s) -- such entries keep the placeholder "
+              "CRC/sizes in their local header" % (offenders[:2] if pss is not None else "?"))
     # per-entry reset in start_entry
     se = facts.one(ZW + "start_entry$")
     exs = Ex(se)
@@ -446,10 +452,12 @@ def mode_rules(ctx, facts, rep):
     for nm, bits in (("start_file", 0o100000), ("start_file_with_extra_data", 0o100000), ("add_directory", 0o40000), ("add_symlink", 0o120000)):
         f = facts.one(ZW + nm + "$")
         found = False
+        exo = Ex(f)
         for b, si2, s2 in f.stmts():
             if s2["k"] == "assign" and s2["rv"]["k"] == "binop" and s2["rv"]["op"] == "BitOr":
                 for o in (s2["rv"]["a"], s2["rv"]["b"]):
-                    if o["k"] == "const" and o.get("v") is not None and int(o["v"]) == bits:
+                    v = norm(exo.operand(o, (b, si2)))
+                    if v[0] in ("const", "named") and v[2] == bits:
                         found = True
         ok &= found
         rep.check(found, rule, "type-bits:%s" % nm, where(f, f.span), "permissions |= 0o%o" % bits, "%s no longer ORs the file-type bits 0o%o into the mode" % (nm, bits))
